@@ -290,7 +290,13 @@ def gen_structure(rng, ctx, want_bonds, max_models=4):
             nm1 = [a[0] for a in templates[n1][0]]
             nm2 = [a[0] for a in templates[n2][0]]
             if x in nm1 and y in nm2:
-                bonds[(f1 + nm1.index(x), f2 + nm2.index(y))] = 1
+                t = 1
+                canon = {"ALA", "GLY", "A", "U", "DA", "DG", "DC", "DT", "G", "C"}
+                if (n1 not in canon or n2 not in canon) and rng.random() < 0.4:
+                    # a backbone-shaped link that involves a non-standard residue is recorded in struct_conn with its own
+                    # type; the reader also derives a (single) bond for it from the residue names - the recorded type wins
+                    t = int(rng.choice(inter_types(ctx)))
+                bonds[(f1 + nm1.index(x), f2 + nm2.index(y))] = t
         # further inter-residue bonds
         if len(residues) > 1:
             for _ in range(int(rng.integers(0, 5))):
@@ -400,6 +406,7 @@ def log_structure(ctx, s):
 # ------------------------------------------------------------------ formats
 FORMATS = ["cif", "bcif", "bcif_compressed"]
 TOL = 1e-6
+CUR = {"tol": 1e-6}      # tolerance of the compressed file of the current case
 
 
 def formats(ctx, s):
@@ -434,7 +441,29 @@ def write_read(fmt, obj, extra, include_bonds, scribble=False):
     if scribble:
         _scribble(obj)
     if fmt == "bcif_compressed":
-        f = pdbx.compress(f, float_tolerance=TOL)
+        ctx = _CTXREF[0]
+        k = (ctx.index or 0) if ctx is not None else 0
+        # the tolerance is drawn per case (the default 1e-6 is sometimes left out), and the file is compressed as a whole,
+        # block by block or category by category: the tolerance has to reach every column in each form
+        tol = [1e-6, 1e-9, 1e-6, 1e-3, 1e-9, 1e-6][k % 6]
+        CUR["tol"] = tol
+        kw = {} if (tol == 1e-6 and k % 12 == 0) else {"float_tolerance": tol}
+        form = k % 3
+        if form == 0:
+            f = pdbx.compress(f, **kw)
+        else:
+            g = pdbx.BinaryCIFFile()
+            for bname, block in f.items():
+                if form == 1:
+                    g[bname] = pdbx.compress(block, **kw)
+                else:
+                    nb = pdbx.BinaryCIFBlock()
+                    for cname, cat in block.items():
+                        nb[cname] = pdbx.compress(cat, **kw)
+                    g[bname] = nb
+            f = g
+        if ctx is not None:
+            ctx.op("compress_%s_tol%g" % (["file", "block", "category"][form], tol))
     buf = io.BytesIO()
     f.write(buf)
     buf.seek(0)
@@ -447,7 +476,7 @@ def _cmp_float(got, exp, fmt, name, ctx, what):
     if got.shape != exp.shape:
         ctx.fail("roundtrip_fields", "%s: %s shape %s != %s" % (what, name, got.shape, exp.shape))
     if fmt == "bcif_compressed":
-        ok = np.abs(got - exp) <= TOL * np.abs(exp) + 1e-12
+        ok = np.abs(got - exp) <= CUR["tol"] * np.abs(exp) + 1e-12
     else:
         ok = got == exp
     if not ok.all():
@@ -576,13 +605,13 @@ def case_roundtrip(rng, ctx, want_bonds):
         for c in x.get_annotation_categories():
             u, v = x.get_annotation(c), y.get_annotation(c)
             if u.dtype.kind == "f" and not exact:
-                if not np.allclose(u, v, rtol=2 * TOL, atol=1e-12):
+                if not np.allclose(u, v, rtol=2 * max(TOL, CUR["tol"]), atol=1e-12):
                     return False
             elif u.dtype.kind != v.dtype.kind or not np.array_equal(u, v):
                 return False
         if exact and not np.array_equal(x.coord, y.coord):
             return False
-        if not exact and not np.allclose(x.coord, y.coord, rtol=2 * TOL, atol=1e-12):
+        if not exact and not np.allclose(x.coord, y.coord, rtol=2 * max(TOL, CUR["tol"]), atol=1e-12):
             return False
         if (x.box is None) != (y.box is None):
             return False
@@ -669,6 +698,8 @@ def case_altloc(rng, ctx):
         weights = rng.dirichlet(np.ones(k)).round(2)
         if rng.random() < 0.3:
             weights[:] = round(1.0 / k, 2)          # ties -> first in sorted order
+        elif rng.random() < 0.12:
+            weights[:] = 0.0                        # all conformations unoccupied: still exactly one of them is selected
         lone = first + int(rng.integers(cnt))       # 'single': exactly one atom of the residue carries an alternate-location id
         for i in range(first, first + cnt):
             dup = mode == "all" or (mode == "some" and rng.random() < 0.5) or (mode == "single" and i == lone)
